@@ -531,6 +531,8 @@ def _config_fields(ctx):
 
 def run(ctx):
     from . import C03
+    from . import C04
+    C04.r2(ctx)   # a bounced host's listeners go with its old runtime: tasks that survive a bounce keep the port and strand queued connectors
     r11(ctx)
     C03.r6(ctx)   # the in-simulation and the Sim-handle spellings of partition / repair reach the same World operation (a oneway repair must not heal both directions)
     C03.r3(ctx, C03.Typestate(ctx.w, C03.CELLS))   # a request travelling (or held) on a link that is partitioned is destroyed with the partition: its connector is refused, not left hanging
